@@ -9,13 +9,20 @@ Local Open Scope N_scope.
 Inductive op :=
 | OCp (head c : N) (m : onconf)                         (* dolt_cherry_pick(c) with HEAD = head *)
 | ORv (head c : N) (m : onconf)                         (* dolt_revert(c) with HEAD = head *)
-| ORb (tip onto : N) (pl : list (action * N)) (m : onconf).  (* dolt_rebase -i onto on a branch at tip *)
+| ORb (tip onto : N) (pl : list (action * N)) (m : onconf)   (* dolt_rebase -i onto on a branch at tip *)
+(* the same with unrelated uncommitted work present: table 2 edited (not staged) to the rows d2, and / or an
+   untracked table *)
+| OCpD (head c : N) (d2 : option content) (untracked : bool)
+| ORvD (head c : N) (d2 : option content) (untracked : bool).
 
 Definition input := (list (option N * schema * content) * list op)%type.
 
 (* outcome kinds: 0 ok, 1 conflict, 2 no change, 3 invalid plan, 4 other error,
-   5 conflicts resolved and continued, 6 aborted *)
-Record op_obs := { k_kind : N; k_schema : schema; k_data : content; k_new : N; k_restored : bool; k_pauses : N }.
+   5 conflicts resolved and continued, 6 aborted, 7 refused because of uncommitted changes.
+   k_data: the COMMITTED rows of HEAD afterwards; k_work: the working-set rows;
+   k_dirty_kept: the unrelated edits are still listed as unstaged by dolt_status and are not in HEAD *)
+Record op_obs := { k_kind : N; k_schema : schema; k_data : content; k_new : N; k_restored : bool; k_pauses : N;
+                   k_work : content; k_dirty_kept : bool }.
 Definition obs := list op_obs.
 Definition case := (input * obs)%type.
 
@@ -25,7 +32,19 @@ Definition schema_at (cs : list (option N * schema * content)) (i : N) : schema 
   match nth_error cs (N.to_nat i) with Some pc => snd (fst pc) | None => [] end.
 
 Definition mk (k : N) (s : schema) (d : content) (n : N) (r : bool) (p : N) : op_obs :=
-  {| k_kind := k; k_schema := s; k_data := d; k_new := n; k_restored := r; k_pauses := p |}.
+  {| k_kind := k; k_schema := s; k_data := d; k_new := n; k_restored := r; k_pauses := p; k_work := d; k_dirty_kept := false |}.
+
+Definition with_dirty (r : op_obs) (w : content) (kept : bool) : op_obs :=
+  {| k_kind := k_kind r; k_schema := k_schema r; k_data := k_data r; k_new := k_new r; k_restored := k_restored r;
+     k_pauses := k_pauses r; k_work := w; k_dirty_kept := kept |}.
+
+(* rows of one table / the content with table 2 replaced *)
+Definition tbl_of (t : N) (m : content) : content := filter (fun kr => fst (fst kr) =? t) m.
+Definition set_t2 (d : content) (d2 : option content) : content :=
+  match d2 with Some x => tbl_of 1 d ++ tbl_of 2 x | None => d end.
+Definition t2_dirty (dh : content) (d2 : option content) : bool :=
+  match d2 with Some x => negb (content_eqb (norm (tbl_of 2 x)) (norm (tbl_of 2 dh))) | None => false end.
+Definition touches2 (dp dc : content) : bool := negb (content_eqb (norm (tbl_of 2 dp)) (norm (tbl_of 2 dc))).
 Definition bad : op_obs := mk 4 [] [] 0 false 0.
 
 Definition of_pres2 (sr : schema * pres2) : op_obs :=
@@ -70,13 +89,42 @@ Definition model_op (cs : list (option N * schema * content)) (o : op) : op_obs 
       end
     | _, _, _ => bad
     end
+  | OCpD _ _ _ _ | ORvD _ _ _ _ => bad          (* handled by model_op_dirty *)
   end.
 
-Definition model_obs (i : input) : obs := map (model_op (fst i)) (snd i).
+(* revert.dirtyTablesConflictWithRevert: an unstaged change to a table the revert would touch refuses it;
+   cherry_pick.cherryPick: any uncommitted change (also an untracked table) refuses it.  Otherwise only the
+   tables the merge changed are staged and committed (stageRevertedTables): the unrelated edits stay in the
+   working set, uncommitted. *)
+Definition refused_obs (s : schema) (dh : content) (d2 : option content) : op_obs :=
+  with_dirty (mk 7 s (norm dh) 0 true 0) (norm (set_t2 dh d2)) true.
+
+Definition model_op_dirty (cs : list (option N * schema * content)) (o : op) : op_obs :=
+  let h := hist_of cs in
+  match o with
+  | OCpD hd c d2 u =>
+    match data_at h hd with
+    | Some dh => if t2_dirty dh d2 || u then refused_obs (schema_at cs hd) dh d2
+                 else model_op cs (OCp hd c Stop)
+    | None => bad
+    end
+  | ORvD hd c d2 u =>
+    match data_at h hd, parent_data h c, data_at h c with
+    | Some dh, Some dp, Some dc =>
+      if t2_dirty dh d2 && touches2 dp dc then refused_obs (schema_at cs hd) dh d2
+      else let r := model_op cs (ORv hd c Stop) in
+           if k_kind r =? 0 then with_dirty r (norm (set_t2 (k_data r) d2)) true else r
+    | _, _, _ => bad
+    end
+  | _ => model_op cs o
+  end.
+
+Definition model_obs (i : input) : obs := map (model_op_dirty (fst i)) (snd i).
 
 Definition op_obs_eqb (a b : op_obs) : bool :=
   (k_kind a =? k_kind b) && schema_eqb (k_schema a) (k_schema b) && content_eqb (k_data a) (k_data b)
-  && (k_new a =? k_new b) && Bool.eqb (k_restored a) (k_restored b) && (k_pauses a =? k_pauses b).
+  && (k_new a =? k_new b) && Bool.eqb (k_restored a) (k_restored b) && (k_pauses a =? k_pauses b)
+  && content_eqb (k_work a) (k_work b) && Bool.eqb (k_dirty_kept a) (k_dirty_kept b).
 
 Fixpoint obs_eqb (a b : obs) : bool :=
   match a, b with
@@ -115,7 +163,7 @@ Definition no_drop_conflict_b (sb so st : schema) (b o t : content) : bool :=
   forallb (fun k => negb (drop_conflict_at sb so st b o t k)) (keys b ++ keys o ++ keys t).
 Definition soutcome_ok (m : onconf) (sb so st : schema) (b o t : content) (r : op_obs) : bool :=
   let sm := schema_merge sb so st in
-  let rb := reshape sb sm b in let ro := settle sb so sm b o t in let rt := settle sb st sm b t o in
+  let rb := reshape sb sm b in let ro := settle sb so st sm b o t in let rt := settle sb st so sm b t o in
   let okm := no_conflict_b rb ro rt && no_drop_conflict_b sb so st b o t in
   let k := k_kind r in
   if k =? 0 then okm && is_merge3_b rb ro rt (k_data r) && canonical (k_data r) && schema_eqb (k_schema r) sm
@@ -164,12 +212,39 @@ Definition oracle_op (cs : list (option N * schema * content)) (o : op) (r : op_
            end
     | _, _, _ => k_kind r =? 4
     end
+  | OCpD _ _ _ _ | ORvD _ _ _ _ => false        (* handled by oracle_op_dirty *)
+  end.
+
+(* with unrelated uncommitted work present: the new commit is the merge result only; the unrelated
+   changes stay uncommitted (still in the working set, still listed by dolt_status, not in HEAD);
+   a refusal is legitimate only when local changes would be in the way, and changes nothing *)
+Definition oracle_op_dirty (cs : list (option N * schema * content)) (o : op) (r : op_obs) : bool :=
+  let h := hist_of cs in
+  match o with
+  | OCpD hd c d2 u =>
+    match data_at h hd with
+    | Some dh =>
+      if k_kind r =? 7 then (t2_dirty dh d2 || u) && k_restored r && k_dirty_kept r
+                            && ext_eqb (k_data r) dh && ext_eqb (k_work r) (set_t2 dh d2)
+      else oracle_op cs (OCp hd c Stop) r && negb (t2_dirty dh d2 || u)
+    | None => k_kind r =? 4
+    end
+  | ORvD hd c d2 u =>
+    match data_at h hd, parent_data h c, data_at h c with
+    | Some dh, Some dp, Some dc =>
+      if k_kind r =? 7 then t2_dirty dh d2 && touches2 dp dc && k_restored r && k_dirty_kept r
+                            && ext_eqb (k_data r) dh && ext_eqb (k_work r) (set_t2 dh d2)
+      else oracle_op cs (ORv hd c Stop) r
+           && (if k_kind r =? 0 then k_dirty_kept r && ext_eqb (k_work r) (set_t2 (k_data r) d2) else true)
+    | _, _, _ => k_kind r =? 4
+    end
+  | _ => oracle_op cs o r
   end.
 
 Fixpoint oracle_ops (cs : list (option N * schema * content)) (os : list op) (rs : obs) : bool :=
   match os, rs with
   | [], [] => true
-  | o :: os', r :: rs' => oracle_op cs o r && oracle_ops cs os' rs'
+  | o :: os', r :: rs' => oracle_op_dirty cs o r && oracle_ops cs os' rs'
   | _, _ => false
   end.
 
